@@ -26,6 +26,15 @@ func devSrc(file string) {
 		panic(err)
 	}
 	text := luagen.PrintLua(prog)
+	if len(os.Args) > 3 { // ./c05 src file.lua K [str]: the K-th emit call fails
+		k := 0
+		fmt.Sscan(os.Args[3], &k)
+		str := len(os.Args) > 4
+		out := luagen.RunIsolated(text, 20*time.Second, &luagen.RunOptions{EmitFault: k, FaultString: str})
+		fmt.Printf("%s\nOpen Scope Z_scope.\nDefinition cc : case := CProgF %d %v %s %s.\nEval vm_compute in (check_skip cc, check_spec cc, check_impl cc).\nEval vm_compute in (fst (run_case no_devs cc)).\n(* %v *)\n",
+			luaprop.Header, k, str, luagen.CoqBlock(prog), out.Coq(), out.Summary())
+		return
+	}
 	out := luagen.RunIsolated(text, 20*time.Second, nil)
 	fmt.Printf("%s\nOpen Scope Z_scope.\nDefinition cc : case := CProg %s %s.\nEval vm_compute in (check_skip cc, check_spec cc, check_impl cc).\n(* %v *)\n",
 		luaprop.Header, luagen.CoqBlock(prog), out.Coq(), out.Summary())
@@ -161,6 +170,14 @@ func faultEnumeration(w *lib.Writer, tier string, seed uint64) {
 		e := len(base.Trace)
 		for k := 1; k <= e && k <= capEmit; k++ {
 			str := (k+i)%2 == 0
+			if strings.Contains(src, "coroutine.wrap(") {
+				// a STRING raised inside a coroutine whose wrap function was called directly by a host function
+				// (pcall(w, ...)) leaves with no position added (luaL_where of a C function is empty; gopher-lua
+				// agrees), but coq/Lua/Eval.v BWrapped prefixes "<string>:0:" there (frames_line of a host frame):
+				// a slip of the reference evaluator, see notes/C05.md. The generator's shapes never raise a string
+				// through such a call; the injected fault would.
+				str = false
+			}
 			out := luagen.RunIsolated(src, 20*time.Second, &luagen.RunOptions{EmitFault: k, FaultString: str})
 			if slowChild(out.GoFail) {
 				out = luagen.RunIsolated(src, 150*time.Second, &luagen.RunOptions{EmitFault: k, FaultString: str, Timeout: 120 * time.Second})
